@@ -1,11 +1,16 @@
 """C19 — a clone is an equal, detached and fully independent line.
 
-For every record type (virtual lines included), stand-alone and connected, with tags of all seven datatypes,
+For every record type (virtual lines included; user-defined record types registered with Line.register_extension
+whose fields refer to segments and to lines of another extension type, kinds ZA / ZB / ZBv, see register_extensions:
+one of them files its lines in a back-reference collection of the segment which another extension has already
+declared), stand-alone and connected, with tags of all seven datatypes,
 levels 0-3, and the three representation states a field can be in when the line is cloned - never read (at level 0 the
 delayed-parsing datatypes are then still stored as strings), all fields read (parsed), or (random cases) a random
 subset of the non-reference fields re-assigned their own written form as a string (accepted at every level, parsed on
 the next read):
-  * clone.gfa is None, clone.is_connected() is False, no gfapy.Line is reachable from the clone's fields;
+  * clone.gfa is None, clone.is_connected() is False, no gfapy.Line is reachable from the clone's fields (references
+    are rendered as identifiers: signature clone-references-line; for the extension kinds every declared reference
+    field - to a segment, to a line of another extension - is covered, with the lines referred to present or not);
   * str(clone) == str(original) and clone == original and original == clone;
   * reading is not an edit: both stay true (both directions of ==) after the fields (all of them in the exhaustive
     cases, a random subset in the random ones) have been read in ONE copy only (the copy is a case parameter), for a
@@ -43,8 +48,10 @@ from harness import lib
 from harness.props import _misc as M
 
 ID = "C19"
-RULE = ("exhaustive: 21 kinds of line (H with single and repeated tags, GFA1 S/L/C/P, comment, GFA2 S/E with CIGAR, trace and "
-        "placeholder/F/G/O/U/custom record, virtual segment, virtual link, virtual unknown line), each with tags of the 7 "
+RULE = ("exhaustive: 24 kinds of line (H with single and repeated tags, GFA1 S/L/C/P, comment, GFA2 S/E with CIGAR, trace and "
+        "placeholder/F/G/O/U/custom record, virtual segment, virtual link, virtual unknown line, lines of two registered "
+        "extension record types with reference fields to segments and to each other - sharing one back-reference "
+        "collection of the segment - with resolved and with unresolved references), each with tags of the 7 "
         "datatypes (two B subtypes), stand-alone and connected, levels 0-3, plus 8 kinds (GFA1 S/L/C, GFA2 S/E/E-trace/F, "
         "H stand-alone only) read at level 0 whose predefined tags are declared with a datatype other than the prescribed one "
         "(KC:f, RC:f, LN:f, NM:f, TS:f/J/Z, ID:A, UR:J, SH:Z, VN:A ...), fields read before cloning or not, the whole edit "
@@ -91,6 +98,15 @@ DOC2D = ["H\tVN:Z:2.0\tzz:i:1",
          "F\tA\tr+\t0\t4$\t0\t2$\t1M1D\tTS:Z:ten\t" + CTAGS]
 HD_TEXT = "H\tVN:A:2\tTS:f:10.5\tzz:i:1\t" + CTAGS
 
+# User-defined record types (Line.register_extension) whose positional fields are references to other lines.  The
+# types are registered by register_extensions() when the first case which needs them is built (record types ZA and ZB,
+# which no document of another kind contains).
+DOC3 = ["H\tVN:Z:2.0",
+        "S\tA\t4\tACGT", "S\tB\t5\t*",
+        "ZA\tan1\tA\tGN:Z:a gene\t" + TAGS,
+        "ZB\trp1\tB\tan1\tSC:i:3\t" + TAGS,
+        "ZB\trp2\tQ\tan9\t" + TAGS]
+
 # kind -> (version, text for the stand-alone form or None, finder in the connected form or None)
 KINDS = {
     "H": ("gfa1", DOC1[0], lambda g: g.header),
@@ -122,9 +138,44 @@ KINDS = {
     "Ed": ("gfa2", DOC2D[3], lambda g: g.line("e1")),
     "Etd": ("gfa2", DOC2D[4], lambda g: g.line("e2")),
     "Fd": ("gfa2", DOC2D[5], lambda g: g.fragments[0]),
+    # extension record types with reference fields (ZBv: the lines referred to are not in the Gfa)
+    "ZA": ("gfa2", DOC3[3], lambda g: g.line("an1")),
+    "ZB": ("gfa2", DOC3[4], lambda g: g.line("rp1")),
+    "ZBv": ("gfa2", DOC3[5], lambda g: g.line("rp2")),
 }
 KIND_LIST = list(KINDS)
 DECLARED = {"S1d", "Ld", "Cd", "Hd", "S2d", "Ed", "Etd", "Fd"}
+EXTENSION = {"ZA", "ZB", "ZBv"}
+EXT_REFERENCES = {"ZA": ("sid",), "ZB": ("sid", "aid"), "ZBv": ("sid", "aid")}      # the declared reference fields
+
+
+def register_extensions(gfapy):
+    """Two user-defined record types, declared the way the library documents (class constants + register_extension):
+      ZA  <aid> <sid>         an annotation of a GFA2 segment; the segment collects its annotations in `annotations`
+      ZB  <rid> <sid> <aid>   refers to a GFA2 segment, which collects these lines in `annotations` TOO (a collection
+                              name which the segment class already knows when ZB is registered), and to a ZA line,
+                              which collects them in `repeats`
+    Both have a name field, a predefined tag and take any custom tag."""
+    if "ZA" in gfapy.Line.EXTENSIONS:
+        return
+    from collections import OrderedDict
+
+    class C19Annotation(gfapy.Line):
+        RECORD_TYPE = "ZA"
+        POSFIELDS = OrderedDict([("aid", "identifier_gfa2"), ("sid", "identifier_gfa2")])
+        TAGS_DATATYPE = {"GN": "Z"}
+        NAME_FIELD = "aid"
+
+    C19Annotation.register_extension(references=[("sid", gfapy.line.segment.GFA2, "annotations")])
+
+    class C19Repeat(gfapy.Line):
+        RECORD_TYPE = "ZB"
+        POSFIELDS = OrderedDict([("rid", "identifier_gfa2"), ("sid", "identifier_gfa2"), ("aid", "identifier_gfa2")])
+        TAGS_DATATYPE = {"SC": "i"}
+        NAME_FIELD = "rid"
+
+    C19Repeat.register_extension(references=[("sid", gfapy.line.segment.GFA2, "annotations"),
+                                             ("aid", C19Annotation, "repeats")])
 
 
 def levels_of(kind):
@@ -133,6 +184,8 @@ def levels_of(kind):
 
 def doc_of(kind):
     ver = KINDS[kind][0]
+    if kind in EXTENSION:
+        return DOC3
     if kind in DECLARED:
         return DOC1D if ver == "gfa1" else DOC2D
     return DOC1 if ver == "gfa1" else DOC2
@@ -362,7 +415,7 @@ def edit_sites(gfapy, line):
               "path_name": "N2", "eid": "N3", "gid": "N4", "pid": "N5", "beg1": 1, "end1": 2, "beg2": 1, "end2": 2, "alignment": "9M",
               "s_beg": 1, "s_end": 2, "f_beg": 1, "f_end": 2, "disp": 5, "var": 6, "content": "changed", "from_segment": "N6",
               "to_segment": "N7", "sid1": "N6+", "sid2": "N7-", "external": "N8-", "segment_names": "N6+,N7-", "overlaps": "5M",
-              "items": "N6+ N7-", "field1": "changed"}
+              "items": "N6+ N7-", "field1": "changed", "aid": "N9", "rid": "N10"}
     for f in pf:
         if f in posval:
             E.append(("set(%r)" % f, lambda f=f: line.set(f, posval[f])))
@@ -379,6 +432,8 @@ def safe_str(x):
 def build(case):
     gfapy = lib.import_gfapy()
     ver, text, finder = KINDS[case["kind"]]
+    if case["kind"] in EXTENSION:
+        register_extensions(gfapy)
     if case["connected"]:
         g = gfapy.Gfa(doc_of(case["kind"]), vlevel=case["vlevel"], version=ver)
         return g, finder(g)
@@ -405,6 +460,11 @@ def oracle(case):
         return ["build-failed: %s@%s %s" % (e.__class__.__name__, M.innermost_gfapy_frame(e), case)]
     if line is None:
         return ["build-failed: line not found %s" % case]
+    if case["kind"] in EXTENSION and case["connected"] and case["kind"] != "ZBv":
+        # the harness's own premise: the reference fields of the connected original hold the lines referred to
+        for fn in EXT_REFERENCES[case["kind"]]:
+            if not isinstance(line.get(fn), gfapy.Line):
+                return ["build-failed: field %s of the connected %s line is not a reference %s" % (fn, case["kind"], case)]
     what = "%s %s vlevel=%d%s" % (case["kind"], "connected" if case["connected"] else "stand-alone", case["vlevel"],
                                   " fields-read" if case["touch"] else "")
     if case["touch"]:
